@@ -101,8 +101,8 @@ def run_variants(chk, n):
         p = g.program()
         name = p["lib"][0]["name"]
         kw = [[k, tplgen.sval(g.word())] for k in r.sample(tplgen.KEYS + tplgen.SCALARS, r.randint(0, 3))]
-        slots = [[s, g.word() + g.word()] for s in r.sample(tplgen.SLOTS + ["default"], r.randint(0, 3))]
-        body = [{"t": "fill", "name": tplgen.lit(s), "data": None, "dflt": None, "body": [{"t": "text", "s": c}]}
+        slots = [[s, "" if r.random() < 0.25 else g.word() + g.word()] for s in r.sample(tplgen.SLOTS + ["default"], r.randint(0, 3))]
+        body = [{"t": "fill", "name": tplgen.lit(s), "data": None, "dflt": None, "body": ([{"t": "text", "s": c}] if c else [])}
                 for s, c in slots]
         page = dict(p, entry={"page": [{"t": "comp", "name": name, "only": False, "dyn": False, "body": body,
                                         "kwargs": [[k, tplgen.lit(v["s"])] for k, v in kw]}]}, ctx=[])
